@@ -30,8 +30,8 @@ func vCat(a, b []byte) []byte {
 	return append(out, b...)
 }
 
-const vNumPutKeyExprs = 5
-const vNumPutValExprs = 7
+const vNumPutKeyExprs = 7
+const vNumPutValExprs = 11
 
 func vPutKeyExpr(i int, tag string) vPutExpr {
 	switch i {
@@ -49,6 +49,27 @@ func vPutKeyExpr(i int, tag string) vPutExpr {
 		t, a := vLit(tag+"k", 1, 1, vLitAlpha)
 		return vPutExpr{"upper(" + t + ")", func(k []byte) ([]byte, bool) { return vUpper(a), false }}
 	}
+	if i == 5 || i == 6 {
+		// a failing operand at either side of a concatenation
+		t, ev := vMaybeFailing(tag + "q")
+		t0, a := vLit(tag+"k", 0, 1, vLitAlpha)
+		if i == 5 {
+			return vPutExpr{"str(" + t + ") + " + t0, func(k []byte) ([]byte, bool) {
+				n, f := ev()
+				if f {
+					return nil, true
+				}
+				return vCat(vDecimal(n), a), false
+			}}
+		}
+		return vPutExpr{t0 + " + str(" + t + ")", func(k []byte) ([]byte, bool) {
+			n, f := ev()
+			if f {
+				return nil, true
+			}
+			return vCat(a, vDecimal(n)), false
+		}}
+	}
 	d0 := vNondetBytes(tag+"n", 1, 1, "05")
 	d1 := vNondetBytes(tag+"m", 1, 1, "07")
 	return vPutExpr{"str(" + string(d0) + " + " + string(d1) + ")", func(k []byte) ([]byte, bool) {
@@ -56,10 +77,45 @@ func vPutKeyExpr(i int, tag string) vPutExpr {
 	}}
 }
 
+// vMaybeFailing: N / (N - N), fails exactly when the two last literals coincide
+func vMaybeFailing(tag string) (string, func() (int, bool)) {
+	d0 := vNondetBytes(tag+"a", 1, 1, "09")
+	d1 := vNondetBytes(tag+"b", 1, 1, "01")
+	d2 := vNondetBytes(tag+"c", 1, 1, "01")
+	return string(d0) + " / (" + string(d1) + " - " + string(d2) + ")", func() (int, bool) {
+		den := int(vDecimalValue(d1) - vDecimalValue(d2))
+		if den == 0 { // forks
+			return 0, true
+		}
+		den = vConcretize(den)
+		return int(vDecimalValue(d0)) / den, false
+	}
+}
+
 func vPutValExpr(i int, tag string) vPutExpr {
 	switch i {
 	case 0, 1, 2, 3:
 		return vPutKeyExpr(i, tag+"v")
+	case 7, 8:
+		return vPutKeyExpr(i-2, tag+"v")
+	case 9:
+		t, ev := vMaybeFailing(tag + "q")
+		return vPutExpr{"upper(str(" + t + ") + key)", func(k []byte) ([]byte, bool) {
+			n, f := ev()
+			if f {
+				return nil, true
+			}
+			return vUpper(vCat(vDecimal(n), k)), false
+		}}
+	case 10:
+		t, ev := vMaybeFailing(tag + "q")
+		return vPutExpr{"key + str(" + t + ") + 'z'", func(k []byte) ([]byte, bool) {
+			n, f := ev()
+			if f {
+				return nil, true
+			}
+			return vCat(vCat(k, vDecimal(n)), []byte("z")), false
+		}}
 	case 4:
 		return vPutExpr{"'v' + key", func(k []byte) ([]byte, bool) { return vCat([]byte("v"), k), false }}
 	case 5:
@@ -191,6 +247,65 @@ func VH_C12_REMOVE(m, n, firstMode int) {
 	}
 	vAssert(err == nil, "C12/remove-error")
 	vPoll(plan, ctx, 2)
+	vAssert(st.mutations() == 1, "C12/writes-not-issued-exactly-once")
+	ok := true
+	for i := range prior.keys {
+		removed := false
+		for _, k := range keys {
+			removed = vOr(removed, bytes.Equal(k, prior.keys[i]))
+		}
+		still := false
+		for j := range st.keys {
+			still = vOr(still, vAnd(bytes.Equal(st.keys[j], prior.keys[i]), bytes.Equal(st.vals[j], prior.vals[i])))
+		}
+		ok = vAnd(ok, still == vNot(removed))
+	}
+	vAssert(ok, "C12/remove-final-store-is-not-prior-minus-keys")
+	vAssert(len(st.keys) <= len(prior.keys), "C12/remove-adds-pairs")
+	vCover("remove-applied")
+}
+
+// VH_C12_REMOVE_EXPR(m, ke, n, firstMode): remove with key expressions (shapes as for put keys), some failing.
+func VH_C12_REMOVE_EXPR(m, ke, n, firstMode int) {
+	st := vSymStore(n, 0, 2, 1, 1, "ab5", "xy")
+	prior := st.clone()
+	q := "remove "
+	exprs := make([]vPutExpr, m)
+	for i := 0; i < m; i++ {
+		exprs[i] = vPutKeyExpr(ke%vNumPutKeyExprs, "r"+vItoa(i))
+		ke /= vNumPutKeyExprs
+		if i > 0 {
+			q += ", "
+		}
+		q += exprs[i].text
+	}
+	keys := make([][]byte, m)
+	fails := false
+	for i := 0; i < m; i++ {
+		k, f := exprs[i].eval(nil)
+		keys[i] = k
+		if f {
+			fails = true
+		}
+	}
+	plan, err := NewOptimizer(q).BuildPlan(st)
+	vAssert(err == nil, "C12/remove-rejected")
+	ctx := NewExecuteCtx()
+	if firstMode == 0 {
+		_, err = plan.Next(ctx)
+	} else {
+		_, err = plan.Batch(ctx)
+	}
+	if fails {
+		vAssert(err != nil, "C12/failing-expression-not-reported")
+		vAssert(st.mutations() == 0, "C12/write-issued-although-an-expression-fails")
+		vPoll(plan, ctx, 1)
+		vAssert(st.mutations() == 0, "C12/write-issued-although-an-expression-fails")
+		vCover("all-or-nothing")
+		return
+	}
+	vAssert(err == nil, "C12/remove-error")
+	vPoll(plan, ctx, 1)
 	vAssert(st.mutations() == 1, "C12/writes-not-issued-exactly-once")
 	ok := true
 	for i := range prior.keys {
